@@ -9,6 +9,7 @@ import (
 	"runtime/debug"
 	"sort"
 	"strings"
+	"sync"
 )
 
 // Violation is raised (by panic) when an oracle fails.
@@ -31,6 +32,7 @@ type Run struct {
 	Events     []string
 	h          hash.Hash
 	Stats      map[string]int64
+	statMu     sync.Mutex
 	SimNS      int64 // simulated time covered (nanoseconds)
 	nontrivial bool
 	KeepLog    bool
@@ -51,20 +53,35 @@ func (r *Run) Logf(format string, a ...interface{}) {
 
 func (r *Run) Digest() string { return hex.EncodeToString(r.h.Sum(nil)) }
 
-func (r *Run) Count(key string)        { r.Stats[key]++ }
-func (r *Run) Add(key string, n int64) { r.Stats[key] += n }
+// counters may be bumped from library goroutines (block requests answered by the store)
+func (r *Run) Count(key string) { r.Add(key, 1) }
+func (r *Run) Add(key string, n int64) {
+	r.statMu.Lock()
+	r.Stats[key] += n
+	r.statMu.Unlock()
+}
 
 // Fault counts an injected fault that actually fired and marks the run non-trivial.
 func (r *Run) Fault(kind string) {
-	r.Stats["fault:"+kind]++
+	r.Add("fault:"+kind, 1)
+	r.statMu.Lock()
 	r.nontrivial = true
+	r.statMu.Unlock()
 }
 
 // Probe counts a "rare condition reached" marker.
-func (r *Run) Probe(name string) { r.Stats["probe:"+name]++ }
+func (r *Run) Probe(name string) { r.Add("probe:"+name, 1) }
 
-func (r *Run) Nontrivial()        { r.nontrivial = true }
-func (r *Run) IsNontrivial() bool { return r.nontrivial }
+func (r *Run) Nontrivial() {
+	r.statMu.Lock()
+	r.nontrivial = true
+	r.statMu.Unlock()
+}
+func (r *Run) IsNontrivial() bool {
+	r.statMu.Lock()
+	defer r.statMu.Unlock()
+	return r.nontrivial
+}
 
 // Tier is "quick" or "thorough" (set by the worker).
 var Tier = "quick"
